@@ -668,3 +668,50 @@ Example callable_path_values :
   /\ callable_path_v false [w_B; w_A; w_m] (DChain (AAttr (AName "x") "a")) = "m.A.x.a"
   /\ callable_path_v true [w_m] (DCall (DChain (AName "staticmethod"))) = "staticmethod".
 Proof. vm_compute. repeat split. Qed.
+
+(* ---------------------------------------------------------------- nonlocal declarations *)
+Lemma resolve_v_cons : forall sk skipping f rest n,
+  resolve_v sk skipping (f :: rest) n =
+  if skipping && is_class f && nonempty rest then resolve_v sk true rest n
+  else match g_bind f rest n with
+       | Some p => Some p
+       | None => if is_module f then None
+                 else match (if sk && is_class f then skip_classes rest else rest) with
+                      | [] => None
+                      | g :: r' => if String.eqb n (fname g) && negb (is_module g) then Some (path_of (g :: r'))
+                                   else resolve_v sk (sk && is_class f) rest n
+                      end
+       end.
+Proof. reflexivity. Qed.
+
+(* `nonlocal n` in a class body written directly inside a function (__init__) that binds n: both forms of the walk give the
+   function's binding -- Griffe does not read the declaration, and does not need to unless the class body binds n itself *)
+Theorem nonlocal_decl_direct : forall sk L f r n,
+  wf_chain (L :: f :: r) = true -> is_class L = true -> is_function f = true ->
+  g_bind L (f :: r) n = None -> n <> fname f -> py_bind f r n <> None ->
+  resolve_v sk false (L :: f :: r) n = py_lookup_decl DNonlocal (L :: f :: r) n.
+Proof.
+  intros sk L f r n Hwf CL Ff GL Hn Hb.
+  simpl in Hwf. apply andb_true_iff in Hwf as [_ Hwf]. apply andb_true_iff in Hwf as [Hf _].
+  pose proof (g_bind_py_bind f r n Hf) as GB.
+  assert (ML : is_module L = false) by (unfold is_class, is_module in *; destruct (fkind L); congruence).
+  assert (Cf : is_class f = false) by (unfold is_class, is_function in *; destruct (fkind f); congruence).
+  assert (SK : skip_classes (f :: r) = f :: r).
+  { destruct r as [|g r']; [reflexivity|]. rewrite skip_classes_cons2. now rewrite Cf. }
+  assert (On : String.eqb n (fname f) = false) by (now apply String.eqb_neq).
+  unfold py_lookup_decl. simpl tl.
+  rewrite resolve_v_cons. rewrite GL, ML, CL. rewrite !andb_true_r. cbv iota.
+  assert (E : (if sk then skip_classes (f :: r) else f :: r) = f :: r) by (destruct sk; [exact SK | reflexivity]).
+  rewrite E. rewrite On. simpl andb. cbv iota.
+  rewrite resolve_v_cons. rewrite Cf. rewrite !andb_false_r. simpl andb. cbv iota.
+  rewrite GB. unfold is_function in Ff. simpl py_nonlocal. destruct (fkind f) eqn:K; try discriminate.
+  destruct (py_bind f r n) as [p|]; [reflexivity | congruence].
+Qed.
+
+Definition w_L := mkFrame KClass "L" [("t", MObj)] [].
+Definition w_init2 := mkFrame KFunction "__init__" [("L", MObj)] ["self"; "p"].
+Example nonlocal_values :
+  wf_chain [w_L; w_init2; w_A2; w_m] = true
+  /\ resolve_v true false [w_L; w_init2; w_A2; w_m] "p" = Some "m.A(p)" /\ py_lookup_decl DNonlocal [w_L; w_init2; w_A2; w_m] "p" = Some "m.A(p)"
+  /\ py_lookup_decl DNonlocal [w_L; w_init2; w_A2; w_m] "x" = None.
+Proof. vm_compute. repeat split. Qed.
